@@ -73,6 +73,8 @@ func agwpe.(framesFilter).Want(f, frame) (r)
   ensures to: !iszero(f.to) && !(f.to == frame.To) ==> !r
   ensures any-kind: len(f.kinds) == 0 && (f.port == nil || *f.port == frame.Port) && (iszero(f.call) || f.call == frame.From || f.call == frame.To) && (iszero(f.to) || f.to == frame.To) ==> r
   ensures kind: r && len(f.kinds) > 0 ==> exists k :: 0 <= k && k < len(f.kinds) && f.kinds[k] == frame.DataKind
+  loop 0 invariant none-so-far: forall k :: 0 <= k && k <= $idx ==> f.kinds[k] != frame.DataKind
+  ensures wanted-kind-accepted: (f.port == nil || *f.port == frame.Port) && (iszero(f.call) || f.call == frame.From || f.call == frame.To) && (iszero(f.to) || f.to == frame.To) && (exists k :: 0 <= k && k < len(f.kinds) && f.kinds[k] == frame.DataKind) ==> r
 
 # wire format: DataLen is the actual data length, payload follows the header
 func agwpe.(frame).WriteTo(f, w) (n, err)
@@ -114,11 +116,86 @@ func agwpe.(*Conn).Read(c, p) (n, err)
   # end of stream is reported only when the frame queue is closed AND drained (a receive
   # from it reported closed): frames queued before a disconnect are still delivered
   at return requires eof-only-when-drained: $r1 == io.EOF ==> !ok
+  ensures nothing-reported-on-error: err != nil ==> n == 0
+  at return#1 requires buffered-data-only-when-there-is-some: old(len(c.rest)) > 0
+  at copy#0 requires delivers-the-buffered-rest: same($0, p) && same($1, c.rest)
+  at copy#1 requires delivers-the-frame-payload: same($0, p) && same($1, f.Data)
+  at return#4 requires keeps-what-did-not-fit: $r1 == nil && $r0 == min(len(p), len(f.Data)) && len(c.rest) == len(f.Data) - $r0
+  call time.(Time).IsZero set gDLZero := $r0
+  call context.WithDeadline requires only-with-a-read-deadline: !gDLZero && $1 == c.readDeadline
 
 # a frame that was read is never dropped (the non-blocking send's default branch)
 func agwpe.(*demux).Enqueue(d, f) (ok)
   props C13
   call agwpe.debugf requires no-drop: false
+  ensures refused-when-closed: old(d.closed) ==> !ok
+  ensures accepted-while-open: !old(d.closed) ==> ok
+  at select requires queues-this-frame-while-open: !d.closed && $c0 == d.in && same($s0.Data, f.Data) && $s0.DataKind == f.DataKind && $s0.Port == f.Port
+
+# the demultiplexer: closing is idempotent (the input queue is closed exactly once)
+func agwpe.(*demux).Close(d) (err)
+  props C13
+  at close requires input-queue-closed-once: !d.closed && $0 == d.in
+  ensures closed: d.closed && err == nil
+
+func agwpe.(*demux).isClosed(d) (r)
+  props C13
+  ensures def: r == d.closed
+
+# subscriptions are only registered with a running demultiplexer: a one-shot request for the
+# given kinds (NextFrame) or a repeating one with the caller's filter and buffer (Frames)
+func agwpe.(*demux).NextFrame(d, kinds) (r)
+  props C13
+  call agwpe.newFramesReq requires one-shot-for-these-kinds: $0 == 1 && same($1.kinds, kinds) && $1.port == nil && iszero($1.call) && iszero($1.to)
+  at send requires registers-a-one-shot-request-while-open: !d.closed && $0 == d.requests && $1.once
+  at close requires closed-answer-only-when-closed: d.closed
+
+func agwpe.(*demux).Frames(d, bufSize, filter) (filtered, cancel)
+  props C13
+  call agwpe.newFramesReq requires callers-buffer-and-filter: $0 == bufSize && same($1.kinds, filter.kinds) && $1.port == filter.port && $1.call == filter.call && $1.to == filter.to
+  at send requires registers-a-repeating-request-while-open: !d.closed && $0 == d.requests && !$1.once
+  at return#1 requires nothing-when-closed: d.closed
+
+# the chain forwarder passes every frame it received on, and stops only when its source or the
+# next stage is closed
+ghost var gFwdOk bool
+func agwpe.(*demux).Chain$1() ()
+  props C13
+  nosafety
+  loop 0 reads-input forwarding loop: ends when the filtered queue or the next stage is closed (not a remote-input loop)
+  call agwpe.(*demux).Enqueue requires forwards-received-frames-only: ok
+  call agwpe.(*demux).Enqueue set gFwdOk := $r0
+  at return#1 requires stops-when-the-source-is-closed: !ok
+  at return#2 requires stops-when-the-next-stage-is-closed: !gFwdOk
+
+# the dispatcher: a frame is handed only to clients whose filter wants it (Want's contract: port,
+# callsigns, kinds), each client's queue is closed only when it is one-shot and served or was
+# cancelled, exactly that client is then removed, and every client is released on shutdown
+ghost var gWant bool
+ghost var gSentThis bool
+ghost var gNextI int
+ghost var gFrame bool
+func agwpe.(*demux).run(d) ()
+  props C13
+  loop 0 reads-input dispatcher loop: ends when the input queue is closed (not a remote-input loop)
+  call agwpe.(framesFilter).Want requires asks-this-clients-filter-about-this-frame: $1.DataKind == f.DataKind && $1.Port == f.Port && same($1.Data, f.Data)
+  call agwpe.(framesFilter).Want set gWant := $r0
+  call agwpe.(framesFilter).Want set gSentThis := false
+  at select#1 requires delivers-only-wanted-frames: gWant && $c0 == c.resp && $s0.DataKind == f.DataKind && $s0.Port == f.Port && same($s0.Data, f.Data) && $c1 == c.done
+  at select#1 set gSentThis := $chosen == 0
+  at close#1 requires closes-only-one-shot-or-cancelled-clients: gWant && (!gSentThis || c.once) && $0 == c.resp
+  at append#1 requires removes-exactly-this-client: len($0) == i && len($1) == len(clients) - i - 1
+  at return#1 requires every-client-released-on-shutdown: !ok && $idx1 >= len(clients)
+  # every frame is offered to every registered client, in registration order, without gaps:
+  # gNextI is the index of the next client to be examined for the current frame
+  at select#0 set gNextI := 0
+  at select#0 set gFrame := $chosen == 1
+  call agwpe.(framesFilter).Want requires examines-clients-in-order-without-gaps: i == gNextI
+  call agwpe.(framesFilter).Want set gNextI := i + 1
+  at append#1 set gNextI := i
+  loop 2 invariant in-order: gNextI == i && gFrame && 0 <= i
+  loop 0 invariant previous-frame-offered-to-every-client: gFrame ==> gNextI >= len(clients)
+
 
 # every frame handed to the demux owns its data: the read loop passes a fresh frame
 func agwpe.(*TNC).run(t) ()
@@ -137,16 +214,89 @@ func agwpe.(*TNC).read(t, f) (err)
 pred ConnOK(c) := c.p != nil && c.p.tnc != nil && c.p.tnc.conn != nil && c.demux != nil
 pred PortOK(p) := p.tnc != nil && p.tnc.conn != nil && p.demux != nil
 
+# Y polling: the request names this port and this connection's callsigns in the order the
+# connection was started (swapped only for an inbound connection with the environment override);
+# nothing is asked on a closed link; the answer is the little-endian count of a 4-byte payload
+ghost var gYWriteErr error
 func agwpe.(*Conn).numOutstandingFrames(c) (n, err)
   props C13
   requires conn: ConnOK(c)
+  call agwpe.outstandingFramesForConnFrame requires names-this-connection: $0 == c.p.port && (!c.inbound ==> same($1, c.srcCall) && same($2, c.dstCall))
+  call agwpe.(*Port).write set gYWriteErr := $r0
+  ensures write-error-propagates: gYWriteErr != nil ==> err == gYWriteErr
+  ensures zero-on-error: err != nil ==> n == 0
+  at return#0 requires closed-link-is-eof: $r1 == io.EOF
+  at return#2 requires closed-answer-queue-is-eof: !ok && $r1 == io.EOF
+  at return#3 requires malformed-answer-is-an-error: len(f.Data) != 4 && $r1 != nil
+  at return#4 requires answer-decoded: ok && len(f.Data) == 4 && $r1 == nil
+  at return#5 requires timeout-is-an-error: $r1 != nil
 
+# the three polling conditions
+func agwpe.(*Conn).Flush$1(n) (r)
+  props C13
+  ensures until-nothing-is-outstanding: r <==> n == 0
+
+func agwpe.(*Conn).Write$1(n) (r)
+  props C13
+  requires conn: c != nil && c.p != nil
+  ensures until-the-window-has-room: r <==> n <= c.p.maxFrame
+
+func agwpe.(*Conn).Write$2(n) (r)
+  props C13
+  ensures until-the-frame-is-queued: r <==> n > 0
+
+# the poller: an error of the poll is forwarded (and ends the poller), otherwise it stops when
+# the condition holds
+ghost var gPollErr error
+func agwpe.(*Conn).waitOutstandingFrames(c, ctx, stop) (err)
+  props C13
+  requires conn: ConnOK(c) && ctx != nil
+  # the poller can always deposit its error, even when the waiter already left with the context
+  at makechan requires poller-never-blocks-on-its-report: $0 >= 1
+
+func agwpe.(*Conn).waitOutstandingFrames$1() ()
+  props C13
+  nosafety
+  requires conn: ConnOK(c)
+  loop 0 invariant conn: ConnOK(c)
+  loop 0 reads-input polling loop: ends with the context, an error or the condition (not a remote-input loop)
+  call agwpe.(*Conn).numOutstandingFrames set gPollErr := $r1
+  call funcvalue:agwpe.(*Conn).waitOutstandingFrames$1.stop requires condition-checked-only-without-error: gPollErr == nil && $0 == n
+  at send requires forwards-the-poll-error: gPollErr != nil && $1 == gPollErr
+  at return#1 requires error-return-only-after-an-error: gPollErr != nil
+  at return#2 requires condition-checked-without-error: gPollErr == nil
+
+ghost var gDLZero bool
+ghost var gCtxDL context.Context
+ghost var gWinErr error
+ghost var gWinDone bool
+ghost var gDataWriteErr error
+ghost var gQueuedErr error
 func agwpe.(*Conn).Write(c, p) (n, err)
   props C13
   requires conn: ConnOK(c)
   call agwpe.connectedDataFrame requires frame: $0 == c.p.port && same($1, c.srcCall) && same($2, c.dstCall) && same($3, p)
   ensures count: err == nil ==> n == len(p)
+  ensures nothing-reported-on-error: err != nil ==> n == 0
+  ensures refused-after-close: old(c.closing) ==> err == io.EOF
+  # the write deadline, when set, bounds both waits
+  call time.(Time).IsZero set gDLZero := $r0
+  call context.WithDeadline requires only-with-a-deadline: !gDLZero && $1 == c.writeDeadline
+  call context.WithDeadline set gCtxDL := $r0
+  call agwpe.(*Conn).waitOutstandingFrames requires deadline-honoured: gDLZero || $1 == gCtxDL
+  # the frame is sent only after the window wait succeeded; every error is reported
+  call agwpe.(*Conn).waitOutstandingFrames#0 set gWinErr := $r0
+  call agwpe.(*Conn).waitOutstandingFrames#0 set gWinDone := true
+  call agwpe.(*Port).write requires after-the-window-wait: gWinDone && gWinErr == nil && !c.closing
+  call agwpe.(*Port).write set gDataWriteErr := $r0
+  call agwpe.(*Conn).waitOutstandingFrames#1 requires after-the-frame-was-written: gDataWriteErr == nil
+  call agwpe.(*Conn).waitOutstandingFrames#1 set gQueuedErr := $r0
+  ensures window-wait-error-propagates: gWinErr != nil ==> err == gWinErr
+  ensures write-error-propagates: gDataWriteErr != nil ==> err == gDataWriteErr
+  ensures queue-wait-error-propagates: gQueuedErr != nil ==> err == gQueuedErr
 
+ghost var gConnWriteErr error
+ghost var gBanner bool
 func agwpe.(*Conn).connect(c, ctx) (err)
   props C13
   requires conn: ConnOK(c) && ctx != nil
@@ -154,16 +304,106 @@ func agwpe.(*Conn).connect(c, ctx) (err)
   # that composition across goroutines is not decided here
   allowpanic f.DataKind != 'C' && f.DataKind != 'd'
   call agwpe.connectFrame requires frame: same($0, c.srcCall) && same($1, c.dstCall) && $2 == c.p.port && same($3, c.via)
+  # the completion signal can always be deposited, even when the cancellation watcher already fired
+  at makechan requires completion-signal-never-blocks: $0 >= 1
+  call agwpe.(*demux).NextFrame requires waits-for-connect-or-disconnect: len($1) == 2 && $1[0] == kindConnect && $1[1] == kindDisconnect
+  call agwpe.(*Port).write#0 set gConnWriteErr := $r0
+  ensures write-error-propagates: gConnWriteErr != nil ==> err == gConnWriteErr
+  call bytes.HasPrefix set gBanner := $r0
+  at return#2 requires closed-answer-queue: !ok && $r0 == ErrPortClosed
+  at return#3 requires refused-without-the-banner: !gBanner && $r0 != nil
+  at return#4 requires connected-only-with-the-banner: gBanner && f.DataKind == kindConnect
+  at return#5 requires cancelled-dial-reports-the-context-error: $r0 != nil && f.DataKind == kindDisconnect
+  at return#6 requires disconnect-is-an-error: $r0 != nil && f.DataKind == kindDisconnect
 
+ghost var gIsClosed bool
+ghost var gFlushErr error
+ghost var gFlushed bool
+ghost var gAckSub bool
+ghost var gDiscWriteErr error
 func agwpe.(*Conn).Close(c) (err)
   props C13
   requires conn: ConnOK(c)
   call agwpe.disconnectFrame requires frame: same($0, c.srcCall) && same($1, c.dstCall) && $2 == c.p.port
+  call agwpe.(*demux).isClosed set gIsClosed := $r0
+  at return#1 requires nothing-to-do-only-when-closing-or-closed: old(c.closing) || gIsClosed
+  # writes are refused before the flush; the disconnect is sent after the flush, unless the
+  # link went down meanwhile, and after subscribing to its acknowledgement
+  call agwpe.(*Conn).Flush requires first-close-of-an-open-link-only: !old(c.closing) && !gIsClosed
+  call agwpe.(*Conn).Flush requires writes-refused-first: c.closing
+  call agwpe.(*Conn).Flush set gFlushErr := $r0
+  call agwpe.(*Conn).Flush set gFlushed := true
+  at return#2 requires link-went-down-while-flushing: gFlushErr == io.EOF
+  call agwpe.(*demux).NextFrame requires waits-for-the-disconnect-ack: len($1) == 1 && $1[0] == kindDisconnect
+  call agwpe.(*demux).NextFrame set gAckSub := true
+  call agwpe.(*Port).write requires flushed-and-subscribed-first: gFlushed && gFlushErr != io.EOF && gAckSub
+  call agwpe.(*Port).write set gDiscWriteErr := $r0
+  ensures write-error-propagates: gDiscWriteErr != nil ==> err == gDiscWriteErr
+
+# a new connection object belongs to this port and carries the station's and the peer's callsigns
+func agwpe.newConn(p, dstCall, via) (c)
+  props C13
+  requires port: PortOK(p)
+  ensures conn: c != nil && c.p == p && c.demux != nil && same(c.srcCall, p.mycall) && same(c.dstCall, dstCall) && same(c.via, via) && !c.inbound && !c.closing && len(c.rest) == 0
+  call agwpe.(*demux).Chain requires only-this-peers-frames: $1.call == agwpe.callsignFromString(dstCall) && $1.port == nil && iszero($1.to) && len($1.kinds) == 0
+  call agwpe.(*demux).Frames requires connected-data-frames: len($2.kinds) == 1 && $2.kinds[0] == kindConnectedData && $1 >= 1
+
+# the watcher started by newConn: tears the connection down only when a disconnect frame arrived
+func agwpe.newConn$1() ()
+  props C13
+  nosafety
+  call agwpe.(*demux).Close requires only-after-a-disconnect-frame: ok
 
 func agwpe.(*Port).register(p, ctx) (err)
   props C13
   requires port: PortOK(p) && ctx != nil
   call agwpe.registerCallsignFrame requires frame: same($0, p.mycall) && $1 == p.port
+  # X exchange: the acknowledgement is subscribed to before the request is written, a write
+  # error is reported, and success needs the one-byte answer 0x01
+  call agwpe.(*demux).NextFrame requires waits-for-the-registration-ack: len($1) == 2 && $1[0] == kindRegister && $1[1] == 'x'
+  call agwpe.(*demux).NextFrame set gRegSub := true
+  call agwpe.(*Port).write requires ack-subscribed-first: gRegSub
+  call agwpe.(*Port).write set gRegWriteErr := $r0
+  ensures write-error-propagates: gRegWriteErr != nil ==> err == gRegWriteErr
+  at return#2 requires malformed-answer-is-an-error: len(f.Data) != 1 && $r0 != nil
+  at return#3 requires callsign-in-use-is-an-error: len(f.Data) == 1 && f.Data[0] != 1 && $r0 != nil
+  at return#4 requires registered-only-with-the-positive-answer: len(f.Data) == 1 && f.Data[0] == 1
+
+ghost var gRegSub bool
+ghost var gRegWriteErr error
+
+# the inbound watcher: only connect frames addressed to this station that the remote initiated
+# become connections, and those are marked inbound
+ghost var gInboundBanner bool
+func agwpe.(*Port).handleInbound$1() ()
+  props C13
+  nosafety
+  loop 0 reads-input watcher loop: ends when the frame queue is closed (not a remote-input loop)
+  requires port: PortOK(p)
+  call agwpe.(*demux).Frames requires connect-frames-only: len($2.kinds) == 1 && $2.kinds[0] == kindConnect
+  call agwpe.(*demux).Frames requires addressed-to-this-station: $2.to == agwpe.callsignFromString(p.mycall) && $2.port == nil && iszero($2.call)
+  call bytes.HasPrefix set gInboundBanner := $r0
+  call agwpe.newConn requires only-remote-initiated-connects: gInboundBanner && $0 == p
+  at store#4 requires marked-inbound: $0 == true
+
+# dialling: only the three AX.25 schemes, target and digipeaters of the URL; a failed connect
+# tears the connection's demultiplexer down and reports the error
+ghost var gDialErr error
+func agwpe.(*Port).DialURLContext(p, ctx, url) (c, err)
+  props C13
+  requires port: PortOK(p) && ctx != nil && url != nil
+  call agwpe.(*Port).DialContext requires ax25-schemes-only: url.Scheme == "ax25" || url.Scheme == "ax25+agwpe" || url.Scheme == "agwpe+ax25"
+  call agwpe.(*Port).DialContext requires target-and-digis-of-the-url: $1 == ctx && same($2, url.Target) && same($3, url.Digis)
+  ensures other-schemes-refused: !(url.Scheme == "ax25" || url.Scheme == "ax25+agwpe" || url.Scheme == "agwpe+ax25") ==> c == nil && err != nil
+
+func agwpe.(*Port).DialContext(p, ctx, target, via) (c, err)
+  props C13
+  requires port: PortOK(p) && ctx != nil
+  call agwpe.(*Conn).connect set gDialErr := $r0
+  ensures connect-error-propagates: gDialErr != nil ==> c == nil && err == gDialErr
+  ensures connection-only-after-a-successful-connect: err == nil ==> c != nil && gDialErr == nil
+  call agwpe.(*demux).Close requires teardown-only-after-a-failed-connect: gDialErr != nil
+
 
 func agwpe.(*Port).getCapabilities(p, ctx) (c, err)
   props C13
